@@ -303,6 +303,9 @@ def run_edits(ctx, seeds, gens):
         shapes["outside-class:%s:operand" % nm] = "function main() -> void { int a = 1 + %s; echo(%s); }\n" % (expr, expr)
         shapes["static-method:%s" % nm] = ("class K { public int v; public constructor() -> K = default; public function run() -> int { return 1; } "
                                            "public static function s() -> int { int a = %s; return 1; } }\nfunction main() -> void { }\n" % expr)
+    shapes["import-name-too-long"] = "import %s;\nfunction main() -> void { }\n" % ("N" * 300)
+    shapes["import-path-too-long"] = "import %s.M;\nfunction main() -> void { }\n" % ".".join(["p" * 200] * 30)
+    shapes["import-wild-too-long"] = "import %s.*;\nfunction main() -> void { }\n" % ("W" * 300)
     shapes["missing-import"] = "import nowhere.Thing;\nfunction main() -> void { }\n"
     shapes["bad-token-after-import"] = "import bloch.lang.Object;\nfunction main() -> void { int x = ; }\n"
     # inheritance cycles with tails leading into them, under many names (class registries are hash
@@ -412,7 +415,8 @@ def run_cli_shapes(ctx, rejected, shapes):
     fd = build.build("frontdump", "asan")
     for k in ("shots-huge", "empty", "only-comment", "nul", "bom", "class-cycle", "self-extends",
               "dup-class", "int-huge", "array-huge", "derived-first", "generic-self", "unterminated-string",
-              "missing-import", "bad-token-after-import", "deep-parens"):
+              "missing-import", "bad-token-after-import", "deep-parens", "import-name-too-long", "import-path-too-long",
+              "import-wild-too-long"):
         d = core.scratch_dir("ld")
         pth = os.path.join(d, "m.bloch")
         with open(pth, "wb") as f:
